@@ -80,6 +80,16 @@ def main():
                 vres.append({"unit": os.path.basename(futs[f]), "backend": "verus", "status": "undecided", "reason": "tool-crash %r" % e,
                              "functions": [], "log": [], "trusted_base": [], "obligations": 0, "discharged": 0})
     vres.sort(key=lambda r: r["unit"])
+    # known-finding witness variants of Verus units: the unit assembled with `//@ifdef <define>` blocks enabled states the
+    # unrestricted claim; while the defect exists that run must FAIL on the recorded obligation
+    vwit = []
+    for k in known:
+        if k.get("status") == "known" and k.get("define") and k.get("unit") in registered()["verus"] and not a.unit:
+            try:
+                r = vx.check_unit(k["unit"], REPO, workdir, None, False, False, (k["define"],))
+            except Exception as e:
+                r = {"status": "undecided", "reason": "tool-crash %r" % e, "failed": []}
+            vwit.append((k, r))
 
     # ---------------- Kani units (one cargo kani invocation per crate directory)
     kres = {}   # harness -> result
@@ -133,6 +143,15 @@ def main():
                 r["status"] = "pass-with-known-findings"
         elif r["status"] == "undecided":
             undecided.append((r["unit"], r.get("reason", "?")))
+    for k, r in vwit:
+        hit = [f for f in r.get("failed", []) if k.get("verus_obligation", "") in f.get("obligation", "")]
+        if r["status"] == "violation" and hit:
+            known_lines.append("KNOWN-FINDING: property=%s %s: %s" % (prop, k["id"], k["what"])); k["_seen"] = True
+            k["_witness"] = hit[0]["obligation"]
+        elif r["status"] == "pass":
+            k["_note"] = "witness variant verified: the recorded finding no longer reproduces"
+        else:
+            k["_note"] = "witness variant undecided: %s" % r.get("reason", "?")
     for name, r in sorted(kres.items()):
         h = hdefs.get(name, {"expect": "pass", "level": "?"})
         if h.get("expect") == "fail":
@@ -156,6 +175,15 @@ def main():
             violations.append((r.get("unit", "?") + "::" + name, "; ".join(f.get("desc", "") for f in r.get("failed_checks", [])[:3]), path, suffix.strip()))
         elif r["status"] != "pass":
             undecided.append((r.get("unit", "?") + "::" + name, r.get("reason", "?")))
+
+    # ---------------- thorough tier: mutation self-test of this property's units (reported, never an alarm)
+    mut_results = None
+    if tier == "thorough" and not a.unit and not violations and not undecided:
+        try:
+            import selftest
+            mut_results = selftest.run(prop=prop)
+        except Exception as e:
+            mut_results = [{"unit": "*", "mutant": "*", "result": "TOOL-ERROR", "detail": repr(e)}]
 
     # ---------------- evidence
     proved_obl = 0; proved_dis = 0
@@ -225,6 +253,10 @@ def main():
         "wall_s": round(time.time() - t0, 2),
         "violations": len(violations),
     }
+    if mut_results is not None:
+        ev["coverage"]["mutation_selftest"] = {"mutants": len(mut_results), "caught": sum(1 for r in mut_results if r["result"] == "CAUGHT"),
+                                               "not_caught": [r for r in mut_results if r["result"] != "CAUGHT"],
+                                               "note": "each mutant = one semantic edit of a covered repository line (specs/mutants/<unit>/*.patch) applied to a scratch copy; the unit must report a violation"}
     if undecided:
         ev["coverage"]["undecided_units"] = [{"unit": u, "reason": r} for u, r in undecided]
     if not a.no_evidence:
@@ -238,11 +270,16 @@ def main():
         print("  verus %-28s %-10s fns=%s smt=%sms %s" % (r["unit"], r["status"], r.get("discharged"), r.get("smt_ms"), r.get("reason") or ""))
     for name, r in sorted(kres.items()):
         print("  kani  %-28s %-10s checks=%s t=%ss [%s] %s" % (name, r["status"], r.get("checks_total"), r.get("solver_s"), hdefs.get(name, {}).get("level"), r.get("reason") or ""))
+    if mut_results is not None:
+        print("  mutation self-test: %d mutants, %d caught" % (len(mut_results), sum(1 for r in mut_results if r["result"] == "CAUGHT")))
+        for r in mut_results:
+            if r["result"] != "CAUGHT":
+                print("    %s/%s: %s %s" % (r["unit"], r["mutant"], r["result"], r.get("detail", "")[:160]))
     for l in known_lines:
         print(l)
     for k in known:
         if k.get("status") == "known" and not k.get("_seen"):
-            print("NOTE: known finding %s was not reproduced by this run (%s)" % (k["id"], k.get("what")))
+            print("NOTE: known finding %s was not reproduced by this run (%s) %s" % (k["id"], k.get("what"), k.get("_note", "")))
     if violations:
         for u, ob, path, suffix in violations:
             print("  failed obligation: %s :: %s" % (u, ob))
